@@ -7,7 +7,8 @@ Local Open Scope N_scope.
 Definition flagless (s : stmt) : bool := match s with SExpect _ | SIgnore => false | _ => true end.
 Definition strip (l : list stmt) : list stmt := filter flagless l.
 (* the test without its declarations *)
-Definition strip_test (t : ltest) : ltest := mkT (t_before t) (strip (t_setup t)) (strip (t_body t)) (strip (t_teardown t)).
+Definition strip_test (t : ltest) : ltest :=
+  mkT (t_before t) (strip (t_ipre t)) (strip (t_setup t)) (strip (t_body t)) (strip (t_teardown t)) (strip (t_ipost t)).
 
 Lemma upto_fail_strip : forall l, upto_fail (strip l) = (strip (fst (upto_fail l)), snd (upto_fail l)).
 Proof.
@@ -18,7 +19,7 @@ Qed.
 
 Lemma executed_strip t : executed (strip_test t) = strip (executed t).
 Proof.
-  unfold executed, strip_test. cbn [t_setup t_body t_teardown]. rewrite !upto_fail_strip.
+  unfold executed, phase_text, strip_test. cbn [t_ipre t_setup t_body t_teardown t_ipost]. rewrite !upto_fail_strip.
   destruct (upto_fail (t_setup t)) as [a fa]. cbn [fst snd]. unfold strip. rewrite !filter_app.
   destruct fa; reflexivity.
 Qed.
@@ -51,34 +52,34 @@ Proof.
   apply IH. lia.
 Qed.
 
-Lemma base_other P Q t t' j : allocs (text_of t) = allocs (text_of t') -> j <> length P ->
-  base_of (P ++ t :: Q) j = base_of (P ++ t' :: Q) j.
+Lemma base_other b0 P Q t t' j : allocs (text_of t) = allocs (text_of t') -> j <> length P ->
+  base_from b0 (P ++ t :: Q) j = base_from b0 (P ++ t' :: Q) j.
 Proof.
-  intros E Hj. unfold base_of. rewrite (nth_other no_test t t' P Q j Hj). f_equal. f_equal.
+  intros E Hj. unfold base_from. rewrite (nth_other no_test t t' P Q j Hj). f_equal. f_equal.
   revert j Hj. induction P as [|p P IH]; intros [|j] Hj; cbn [length] in Hj; try reflexivity; try lia.
   - cbn [app firstn flat_text flat_map]. rewrite !allocs_app, E. reflexivity.
   - cbn [app firstn flat_text flat_map]. fold (flat_text (firstn j (P ++ t :: Q))). fold (flat_text (firstn j (P ++ t' :: Q))).
     rewrite !allocs_app. f_equal. apply IH. lia.
 Qed.
 
-Lemma flags_do_not_carry_over P Q t t' tail tail' k k' j :
+Lemma flags_do_not_carry_over pre P Q t t' tail tail' k k' j :
   strip_test t = strip_test t' ->
-  valid (mkS (P ++ t :: Q) tail k) = true -> valid (mkS (P ++ t' :: Q) tail' k') = true ->
+  valid (mkS pre (P ++ t :: Q) tail k) = true -> valid (mkS pre (P ++ t' :: Q) tail' k') = true ->
   j <> length P -> (j < length (P ++ t :: Q))%nat ->
-  item_same (nth j (o_tests (run (mkS (P ++ t :: Q) tail k))) no_item) (nth j (o_tests (run (mkS (P ++ t' :: Q) tail' k'))) no_item).
+  item_same (nth j (o_tests (run (mkS pre (P ++ t :: Q) tail k))) no_item) (nth j (o_tests (run (mkS pre (P ++ t' :: Q) tail' k'))) no_item).
 Proof.
   intros ES HV HV' Hj Hlt.
   assert (Hlt' : (j < length (P ++ t' :: Q))%nat) by (rewrite app_length in *; cbn [length] in *; lia).
-  pose proof (item_of _ j HV Hlt) as G. pose proof (item_of _ j HV' Hlt') as G'. cbn [s_tests] in G, G'.
+  pose proof (item_of _ j HV Hlt) as G. pose proof (item_of _ j HV' Hlt') as G'. unfold base_of in G, G'. cbn [s_tests s_pre] in G, G'.
   assert (EA : allocs (text_of t) = allocs (text_of t')) by (rewrite <- (allocs_text_strip t), <- (allocs_text_strip t'), ES; reflexivity).
-  rewrite (base_other P Q t t' j EA Hj), (nth_other no_test t t' P Q j Hj) in G.
+  rewrite (base_other _ P Q t t' j EA Hj), (nth_other no_test t t' P Q j Hj) in G.
   exact (item_good_same _ _ _ _ G G').
 Qed.
 
 (* satisfiable: the example program, and the same program with test 1 declaring something else *)
 Example carry_example :
   let t := nth 1 (s_tests example_s) no_test in
-  let t' := mkT (t_before t) (SIgnore :: t_setup t) [SFree 2; SExpect 3; SAlloc 3 1 0] (t_teardown t) in
+  let t' := mkT (t_before t) [SExpect 9] (SIgnore :: t_setup t) [SFree 2; SExpect 3; SAlloc 3 1 0] (t_teardown t) [] in
   strip_test t = strip_test t' /\
-  valid (mkS (firstn 1 (s_tests example_s) ++ t' :: skipn 2 (s_tests example_s)) [] 2) = true.
+  valid (mkS (s_pre example_s) (firstn 1 (s_tests example_s) ++ t' :: skipn 2 (s_tests example_s)) [] 2) = true.
 Proof. vm_compute. split; reflexivity. Qed.
